@@ -241,7 +241,7 @@ impl LogLens {
                 o.insert("i".into(), json!(i + 1));
                 o.insert("now".into(), json!(run.tick));
             }
-            if ev.get("fatal").is_some() {
+            if ev.get("fatal").is_some() || ev.get("end").is_some() {
                 out.emit(&ev);
                 break;
             }
@@ -421,9 +421,30 @@ impl LogLens {
                 if let Some(k) = step["key"].as_str() {
                     run.key = if k == "B" { srv::ENC_KEY_B.into() } else { srv::ENC_KEY_A.into() };
                 }
+                let wrong_key = run.scn.cfg.encryption && run.key != srv::ENC_KEY_A;
                 if let Err(e) = self.start_inc(run) {
+                    if wrong_key {
+                        // C19: with another key the server may refuse to start - it must never serve the old data as valid
+                        return Ok(json!({"ev":"restart_wrong_key","res":res,"outcome":["start_failed"],"fatal_ok":format!("start failed: {e}"),"end":true}));
+                    }
                     // start-up failed: this is data (the event has no sweep and the scenario ends here)
                     return Ok(json!({"ev":"restart","mode":mode,"res":res,"fatal":format!("start failed: {e}")}));
+                }
+                if wrong_key {
+                    let mut outcome = vec![];
+                    for pp in 1..=run.scn.parts {
+                        let obsc = Consumer::new(Identifier::numeric(9999).unwrap());
+                        let o = match self.poll(run, pp, &obsc, &PollingStrategy::offset(0), 1000) {
+                            Ok(pm) if pm.messages.is_empty() => "empty",
+                            Ok(pm) => {
+                                // ciphertext handed out as if it were content, or - impossible - the plaintext
+                                if pm.messages.iter().any(|m| m.payload.len() >= 3 && &m.payload[0..3] == b"<<M") { "plaintext" } else { "messages" }
+                            }
+                            Err(_) => "error",
+                        };
+                        outcome.push(o);
+                    }
+                    return Ok(json!({"ev":"restart_wrong_key","res":res,"outcome":outcome,"end":true}));
                 }
                 json!({"ev":"restart","mode":mode,"res":res})
             }
@@ -545,6 +566,13 @@ impl LogLens {
         let mut obs = vec![];
         for p in 1..=parts {
             obs.push(self.sweep_partition(run, p)?);
+        }
+        // C19: with encryption on no payload may be found in clear in any file the server wrote (every payload starts with "<<M0")
+        if scn.cfg.encryption {
+            let hits = crate::util::scan_files_for(&run.dir, &[b"<<M0".to_vec()]);
+            if let Some(o) = obs[0].as_object_mut() {
+                o.insert("plain_hits".into(), json!(hits));
+            }
         }
         Ok((post, json!(obs)))
     }
